@@ -77,6 +77,13 @@ def run(tr, mode, prop, replay_path=None):
         print(verdicts)
         return 0 if verdicts["replay"]["ok"] else 1
     cases, model = build_cases(tr, mode)
+    if mode == "present":
+        # Layer B state machines: every choice of the random dummy keywords (CT14 / ANSS16) and of the random bucket (DP17)
+        import sse_models
+        for runs, tot in (sse_models.levels_runs(tr), sse_models.dpplace_runs(tr)):
+            model["runs"] += runs
+            model["distinct"] += tot["distinct"]
+            model["generated"] += tot["generated"]
     sd = seed()
     recs = pmap(lambda a: se.run_case(a[1][0], a[1][2], a[1][3], sd * 1000003 + a[0], present=present, absent=absent,
                                       max_search=8), list(enumerate(cases)))
@@ -112,7 +119,9 @@ def run(tr, mode, prop, replay_path=None):
                 "evaluations = searches executed; non-trivial = distinct (scheme, configuration, profile) that built and were searched",
         "drift": drift[:20], "drift_count": len(drift),
         "samples": [strip(recs[0]), strip(recs[len(recs) // 2])],
-        "model": "Layer B spec/sse/Layouts.tla via MC_Profiles (NoRaiseOnValid, ShapeFunctionOfPi, UniformTables); Layer A spec/sse/SSEFunctional.tla via Trace_SSE",
+        "model": "Layer B spec/sse/Layouts.tla via MC_Profiles (NoRaiseOnValid, ShapeFunctionOfPi, UniformTables), spec/sse/Levels.tla (all dummy-keyword choices: "
+                 "NoRaiseOnValid, LevelFits, AllStored; pre-fix variant must fail), spec/sse/DPPlace.tla (all bucket choices: ChoiceNeverEmpty, LocalityBound, "
+                 "NoOverflow); Layer A spec/sse/SSEFunctional.tla via Trace_SSE",
     }
     return finish(prop, tr, t0, cov, vio_out, seen,
                   assumptions=["ideal cryptography in the layout model; AES/HMAC/hash trusted",
